@@ -8,6 +8,19 @@ import (
 
 var UnknownPEMData = Info{Description: "unknown PEM data"}
 
+// describeUnparsedDER: the parser the label calls for refused the body (a certificate on a curve crypto/x509 does not
+// know, say). The same bytes in a DER file are still described, as another recognised structure or as the generic ASN.1
+// dump: a PEM block says no less.
+func describeUnparsedDER(der []byte) Info {
+	if info := parseDERData(der); info.Description != UnknownASN1Data.Description {
+		return info
+	}
+	if info := parseASN1Data(der); info.Description != UnknownASN1Data.Description {
+		return info
+	}
+	return UnknownPEMData
+}
+
 func parsePEMBlock(b *pem.Block) Info {
 	switch strings.ToUpper(b.Type) {
 	case "CERTIFICATE", "TRUSTED CERTIFICATE":
@@ -20,49 +33,49 @@ func parsePEMBlock(b *pem.Block) Info {
 			}
 		}
 		if info, err := parseCertificate(der); err != nil {
-			return UnknownPEMData
+			return describeUnparsedDER(der)
 		} else {
 			return info
 		}
 	case "RSA PUBLIC KEY":
 		if info, err := parsePKCS1PublicKey(b.Bytes); err != nil {
-			return UnknownPEMData
+			return describeUnparsedDER(b.Bytes)
 		} else {
 			return info
 		}
 	case "PUBLIC KEY":
 		if info, err := parsePKIXPublicKey(b.Bytes); err != nil {
-			return UnknownPEMData
+			return describeUnparsedDER(b.Bytes)
 		} else {
 			return info
 		}
 	case "PRIVATE KEY":
 		if info, err := parsePKCS8PrivateKey(b.Bytes); err != nil {
-			return UnknownPEMData
+			return describeUnparsedDER(b.Bytes)
 		} else {
 			return info
 		}
 	case "EC PRIVATE KEY":
 		if info, err := parseECPrivateKey(b.Bytes); err != nil {
-			return UnknownPEMData
+			return describeUnparsedDER(b.Bytes)
 		} else {
 			return info
 		}
 	case "EC PARAMETERS":
 		if info, err := parseECParameters(b.Bytes); err != nil {
-			return UnknownPEMData
+			return describeUnparsedDER(b.Bytes)
 		} else {
 			return info
 		}
 	case "RSA PRIVATE KEY":
 		if info, err := parsePKCS1PrivateKey(b.Bytes); err != nil {
-			return UnknownPEMData
+			return describeUnparsedDER(b.Bytes)
 		} else {
 			return info
 		}
 	case "DSA PRIVATE KEY":
 		if info, err := parseDSAPrivateKey(b.Bytes); err != nil {
-			return UnknownPEMData
+			return describeUnparsedDER(b.Bytes)
 		} else {
 			return info
 		}
